@@ -117,6 +117,11 @@ __start__:
         
         if (c == ctx.GSTUFF_STOP) 
         {
+            // Стартовый байт равен стоповому и строка пуста:
+            // повторный стартовый. Ничего не делаем.
+            if (ctx.GSTUFF_START == ctx.GSTUFF_STOP && sline_empty(&line))
+                goto __continue__;
+
             // Срабатывает на стоп байт (может быть равен стартовому).
             goto __stop_handler__;
         }
